@@ -33,6 +33,7 @@ import sys
 import time
 
 import core
+import ssm
 from core import Result
 
 LEVEL = "proof"
@@ -68,6 +69,20 @@ if __name__ == "__main__":
 '''
 
 # builds a valid .mfe for a .pil without the designer (NUPACK / spuriousSSM are absent in the sandbox)
+# full design runs (no --just-files): the real main() and the real design() run to the end — spuriousSSM (built from the working
+# tree, replayable seed through the guarded hook) is started, its output read back, the .mfe written and the scratch files
+# cleaned up; only the two things this sandbox lacks are supplied from outside: the path of the designer binary and
+# findmfe=False (NUPACK's mfe program is absent)
+LAUNCHER_DESIGN = '''import os
+import peppercompiler.design.spurious_design as _sd
+_orig_design = _sd.design
+def _design(*a, **kw):
+    kw.setdefault("findmfe", False)
+    kw.setdefault("spuriousbinary", os.environ["C20_SSM"])
+    return _orig_design(*a, **kw)
+_sd.design = _design
+''' + LAUNCHER
+
 MKMFE = '''import sys
 from peppercompiler.design.constraint_load import Convert
 from peppercompiler.design.PIL_DNA_classes import group
@@ -96,6 +111,10 @@ def child_env():
     e = dict(os.environ)
     e["PYTHONDONTWRITEBYTECODE"] = "1"
     e["PYTHONPATH"] = core.REPO
+    e["C20_SSM"] = ssm.build(False)
+    e[core.GUARD] = "1"
+    e[core.GUARD + "_SEED"] = "20"       # replayable random stream of spuriousSSM: concurrent and sequential runs comparable
+    e.pop(core.GUARD + "_TRACE", None)
     for k in ("C20_BARRIER", "C20_READY", "C20_DELAY"):
         e.pop(k, None)
     return e
@@ -177,7 +196,10 @@ def prepare_base(root, bindir, name, src, main):
 # commands, the independent footprint specification, model requests
 # ----------------------------------------------------------------------------------------------
 
-def mk_cmd(tool, arg0, rng=None, des=False, just_files=True, struct=False, **opts):
+FULL_RUN_PARS = ["imax=25"]   # spuriousSSM parameters of full design runs (positional arguments after the input name)
+
+
+def mk_cmd(tool, arg0, rng=None, des=False, just_files=True, struct=False, keep_temp=False, decoys=(), **opts):
     opts = {k: v for k, v in opts.items() if v is not None}
     argv = [arg0]
     long = {"output": "--output", "save": "--save", "tempname": "--tempname", "design": "--design", "seqs": "--seqs",
@@ -198,9 +220,14 @@ def mk_cmd(tool, arg0, rng=None, des=False, just_files=True, struct=False, **opt
             argv.append("--struct")
         if just_files:
             argv.append("--just-files")
+        elif keep_temp:
+            argv.append("--keep-temp")
     if rng and rng.random() < 0.3:  # options before the positional argument
         argv = argv[1:] + argv[:1]
-    return {"tool": tool, "arg0": arg0, "opts": opts, "des": des, "just_files": just_files, "struct": struct, "argv": argv}
+    if tool == "design" and not just_files:
+        argv += FULL_RUN_PARS
+    return {"tool": tool, "arg0": arg0, "opts": opts, "des": des, "just_files": just_files, "struct": struct, "argv": argv,
+            "keep_temp": keep_temp, "decoys": list(decoys)}
 
 
 def strip_ext(name, exts):
@@ -236,7 +263,7 @@ def spec_footprint(cmd, existing):
 
 
 def model_req(cmd, existing):
-    r = {"tool": cmd["tool"], "arg0": cmd["arg0"], "des": cmd["des"], "just_files": cmd["just_files"], "cleanup": True,
+    r = {"tool": cmd["tool"], "arg0": cmd["arg0"], "des": cmd["des"], "just_files": cmd["just_files"], "cleanup": not cmd.get("keep_temp"),
          "existing": sorted(existing),
          "sources": sorted(f for f in existing if f.endswith(".sys") or f.endswith(".comp"))}
     r.update(cmd["opts"])
@@ -371,6 +398,14 @@ def footprint_cases(rng, sysd):
         ("ok", mk_cmd("design", b, rng, struct=True, tempname="t" + u + ".st", output="m" + u + ".mfe")),
         ("ok", mk_cmd("design", "Raw" + b, rng)),
         ("usage", mk_cmd("design", "Nope" + u, rng, tempname="tn")),
+        # full design runs (designer started, .mfe written, scratch files cleaned up or kept); beside them lie the scratch
+        # files of OTHER runs whose temp names extend / are extended by this run's temp name
+        ("ok", mk_cmd("design", b, rng, just_files=False, tempname="f" + u,
+                      decoys=["f%s.b%s" % (u, e) for e in TEMP_EXTS] + ["f%s%s.st" % (u, TEMP_EXTS[0]), "f" + u[:1] + ".sp", "f%s.mfe" % u])),
+        ("ok", mk_cmd("design", b + ".pil", rng, just_files=False, keep_temp=True, tempname="k" + u + ".1", output="mk" + u + ".mfe",
+                      decoys=["k%s%s" % (u, e) for e in TEMP_EXTS] + ["k%s.1.x%s" % (u, e) for e in TEMP_EXTS])),
+        ("ok", mk_cmd("design", b, rng, just_files=False, struct=True,
+                      decoys=["%s.run2%s" % (b, e) for e in TEMP_EXTS] + [b + ".pil.st", b + ".mfe.sp"])),
         ("ok", mk_cmd("finish", b)),
         ("ok", mk_cmd("finish", b + ".mfe", rng, seqs="q" + u + ".seqs", strands="r" + u + ".strands")),
         ("ok", mk_cmd("finish", b + ".save", rng, save=b + ".save", design=b + ".mfe", seqs="q" + u)),
@@ -382,6 +417,9 @@ def footprint_cases(rng, sysd):
 def run_footprint_case(root, bindir, sysd, idx, expect, cmd):
     wd = os.path.join(root, "fp_%s_%d" % (sysd["name"], idx))
     shutil.copytree(sysd["base"], wd)
+    for d in cmd.get("decoys", ()):
+        with open(os.path.join(wd, d), "w") as f:
+            f.write("scratch file of another run\n")
     tr = os.path.join(root, "trace_%s_%d.txt" % (sysd["name"], idx))
     before = snapshot(wd)
     t0 = time.time()
@@ -390,11 +428,12 @@ def run_footprint_case(root, bindir, sysd, idx, expect, cmd):
                        cwd=wd, env=child_env(), stdout=subprocess.DEVNULL, stderr=subprocess.PIPE, timeout=600)
     dt = time.time() - t0
     after = snapshot(wd)
+    after_names = sorted(os.listdir(wd))
     obs = parse_strace(tr, wd)
     shutil.rmtree(wd, ignore_errors=True)
     os.remove(tr)
     return {"sys": sysd["name"], "expect": expect, "cmd": cmd, "rc": p.returncode, "obs": obs,
-            "changed": snap_diff(before, after), "stderr": p.stderr.decode(errors="replace")[-300:], "dt": dt}
+            "changed": snap_diff(before, after), "after_names": after_names, "stderr": p.stderr.decode(errors="replace")[-300:], "dt": dt}
 
 
 def cmdline(cmd):
@@ -430,7 +469,15 @@ def judge_footprint(res, sysd, r, model):
     # --- oracle 2 (directory snapshots, independent of strace)
     ch = r["changed"]
     extra2 = sorted(ch - spec["writes"])
-    missing2 = sorted(spec["writes"] - ch) if succeeded else []
+    transient = set()    # scratch files a full design run creates and removes again (no --keep-temp): not in a before/after listing
+    if cmd["tool"] == "design" and not cmd["just_files"] and not cmd.get("keep_temp"):
+        t_ = cmd["opts"].get("tempname") or strip_ext(next(iter(spec["reads"]), ""), ["pil"])
+        transient = {t_ + e for e in TEMP_EXTS}
+    missing2 = sorted(spec["writes"] - transient - ch) if succeeded else []
+    left = sorted(transient & set(r.get("after_names", ())))
+    if succeeded and left:
+        res.violations.append({"what": "a design run without --keep-temp left scratch files behind", "input": inp,
+                               "observed": left, "sig": "C20:footprint", "cmd": how})
     if extra2 or missing2:
         res.violations.append({"what": "directory listing before/after %s differs outside the allowed files" % cmd["tool"],
                                "input": inp, "observed": {"extra": extra2, "missing": missing2, "changed": sorted(ch)},
@@ -503,9 +550,13 @@ def gen_schedule(rng, sysd, n):
                 t = rng.choice(["t%d", "t%d.st", "t.%d", "tmp%d.sp.wc", "T%d"]) % k
                 if rng.random() < 0.15:
                     t = "t" + ".st" * k        # t, t.st, t.st.st, …: scratch names of one are prefixes of another's
+                elif rng.random() < 0.2:
+                    t = "t.x%s" % (".x" * k)   # t.x, t.x.x, …: dotted extensions of one another
+            full = rng.random() < 0.4          # the whole design run: designer, .mfe, cleanup (or --keep-temp)
             cmds.append(mk_cmd("design", rng.choice([b, b + ".pil", "Raw" + b]) if t is not None else b, rng,
-                               struct=rng.random() < 0.5, tempname=t,
-                               output=("m%d.mfe" % k) if rng.random() < 0.5 else None))
+                               struct=rng.random() < 0.5, tempname=t, just_files=not full,
+                               keep_temp=full and rng.random() < 0.5,
+                               output=("m%d.mfe" % k) if (full or rng.random() < 0.5) else None))
         else:
             if not default_seqs and rng.random() < 0.15:
                 default_seqs, q = True, None
@@ -740,7 +791,7 @@ def run(st, tier, seed):
         os.makedirs(bindir)
         for tool, mod in MODULES.items():
             with open(os.path.join(bindir, SCRIPT[tool]), "w") as f:
-                f.write(LAUNCHER % mod)
+                f.write((LAUNCHER_DESIGN if tool == "design" else LAUNCHER) % mod)
         with open(os.path.join(bindir, "mkmfe.py"), "w") as f:
             f.write(MKMFE)
         systems = []
@@ -831,7 +882,9 @@ def run(st, tier, seed):
                     break
     res.assumptions.append("the traced syscall families (open*/creat/unlink*/rename*/mkdir*/rmdir/link*/symlink*/truncate/chmod/"
                            "mknod + stat family) are the ways a process can alter or observe the directory; strace -f follows children")
-    res.notes.append("design runs are exercised with --just-files (NUPACK and spuriousSSM are absent); the .mfe input of finish is "
+    res.notes.append("design runs are exercised with --just-files and as full runs (designer binary built from the working tree, started by the real "
+                     "design(); findmfe=False because NUPACK is absent), with cleanup and with --keep-temp, beside scratch files of other runs whose "
+                     "temp names extend theirs; the .mfe input of finish is "
                      "built in-process from the constraints (Convert.get_constraints -> process_results -> output(findmfe=False))")
     return res
 
@@ -849,7 +902,7 @@ def replay(path):
         os.makedirs(bindir)
         for tool, mod in MODULES.items():
             with open(os.path.join(bindir, SCRIPT[tool]), "w") as f:
-                f.write(LAUNCHER % mod)
+                f.write((LAUNCHER_DESIGN if tool == "design" else LAUNCHER) % mod)
         with open(os.path.join(bindir, "mkmfe.py"), "w") as f:
             f.write(MKMFE)
         main = inp["main"]
